@@ -318,6 +318,14 @@ def run(ctx: core.Run):
         "(decoder); distinct = distinct (kind, bytes, size) tuples." % (maxlen, dlen)
     )
     ctx.exhaustive = False
+    ctx.notes += [
+        "proved for every input (no size bound): enc_chunks, spec_decodes_enc, enc_no_noop, enc_size_bound (Apple's n+ceil(n/127), "
+        "attained at n=128), dec_complete (every conforming stream incl. no-op headers), dec_enc, dec_exact_or_reject, "
+        "dec_rejects_valueError, impl_agree_dec (decC = decPy incl. which inputs are rejected and how), impl_agree_enc, "
+        "decC_in_bounds, decC_never_indexError",
+        "impl_agree_enc is definitional in the model (encC := encPy); that the two source texts are the same state "
+        "machine is tied by the correspondence run (rle.py vs emulated _rle.pyx on every encoder case)",
+    ]
     ctx.extra["implementations_compared"] = [n for n, _ in impls_enc]
     ctx.extra["generated_constants"] = gen
     if ctx.tier == "thorough":
